@@ -2,13 +2,13 @@
 import concurrent.futures
 import hashlib
 import importlib
+import multiprocessing
 import os
 import random
 import re
 import shutil
-import subprocess
 import sys
-from pathlib import Path
+import traceback
 
 from .. import codec, common, dialect
 from ..gens.c01 import expanded_models, schema_text
@@ -16,23 +16,27 @@ from . import c01
 
 MANIFEST = {
 	'text': 'Specification side: the C01/C02/C12 theorems are over Cats/Layout.v for ANY schema term; Cats/Dialect.v adds the boolean wf_schema '
-		'(every reference resolves, declared-before-use so no by-value cycle, widths in {1,2,4,8}, size/count members unsigned, declared '
-		'before and bound to one array, sizeof targets size-implicit structs, @size member first and unsigned, children extend their parent, '
-		'discriminators/initializers complete, conditionals in the three shipped styles, sort keys resolve, aligned variable arrays only of '
-		'abstract parents, fill arrays last) with theorems (Props/C15.v): wf_schema holds of both regenerated shipped schemas (kernel '
-		'computation per run) and excludes the Crash "Unsupported" branches of the interpreter\'s member classification. Per generated PROGRAM: '
-		'random dialect schemas (harness/dialect.py: recombinations of the shipped member forms with fresh names, widths, orders, nesting) '
-		'go through the real CLI + generator twice (identical text), the module is imported beside copies of the real '
-		'ArrayHelpers/BaseValue/ByteArray, wf_schema of its regenerated schema term is evaluated by the kernel, and the full C01 differential '
-		'(serialize/size/deserialize/factory on admissible values + mutated encodings) runs against Layout of that schema, with the '
-		'round-trip/size/factory/decode-encode-decode oracles on the real module.',
+		'(every reference resolves to an earlier declaration so there is no by-value cycle, widths in {1,2,4,8}, size/count members unsigned, '
+		'declared before and bound to one array, sizeof targets size-implicit structs, @size member first and unsigned, children extend their '
+		'parent, discriminators/initializers complete, conditionals in the three shipped styles, sort keys resolve, aligned variable arrays only '
+		'of abstract parents, fill arrays last in a size-prefixed struct) with theorems (Props/C15.v): wf_schema holds of both regenerated '
+		'shipped schemas (kernel computation per run); every member of every struct of a well-formed schema is classified into a supported '
+		'branch of the interpreter; a classified member never takes a Crash "Unsupported" branch on serialize or deserialize; serialize and size '
+		'of a well-formed schema never answer "Unsupported" for any value and fuel. Per generated PROGRAM: random dialect schemas '
+		'(harness/dialect.py: recombinations of the shipped member forms with fresh names, widths, orders, nesting) go through the real CLI + '
+		'generator twice (identical text), the module is imported beside copies of the real ArrayHelpers/BaseValue/ByteArray, wf_schema of its '
+		'regenerated schema term is evaluated by the kernel, and the full C01 differential (serialize/size/deserialize/factory on admissible '
+		'values + mutated encodings) runs against Layout of that schema, with the round-trip/size/factory/decode-encode-decode oracles on the '
+		'real module. Fixed probe schemas (dialect.PROBES) replay known generator idiosyncrasies under stable signatures.',
 	'design_ref': 'DESIGN.md section 4, C15 (stage 1)',
-	'technique': 'Coq (wf_schema + theorems, kernel obligations per generated program) + vm_compute differential of generated modules against the schema interpreter',
+	'technique': 'Coq (wf_schema + theorems, kernel obligation per generated program) + vm_compute differential of generated modules against the schema interpreter',
 }
 
 HELPERS = ['ArrayHelpers.py', 'BaseValue.py', 'ByteArray.py', 'Ordered.py', 'Transforms.py', 'ripemd160.py']
 GENERATOR_PYTHON = '/usr/bin/python3'      # the CLI needs yaml, which only the Debian interpreter has
 PACKAGE = 'symbolchain_gen'
+WORKERS = 5
+PROBE_BASE = 100000
 
 
 def generator_env():
@@ -62,8 +66,8 @@ def prepare_package(scratch):
 	(package / '__init__.py').write_text('', encoding='utf8')
 	for helper in HELPERS:
 		shutil.copy(common.REPO / 'sdk' / 'python' / 'symbolchain' / helper, package / helper)
-	if str(root) not in sys.path:
-		sys.path.insert(0, str(root))
+	sys.path[:] = [path for path in sys.path if not (path.endswith('/pkg') and '/symv-' in path)]
+	sys.path.insert(0, str(root))
 	for name in list(sys.modules):
 		if name == PACKAGE or name.startswith(PACKAGE + '.'):
 			del sys.modules[name]
@@ -87,7 +91,7 @@ def robust_coq_eval(imports, exprs, tag, shard=50, timeout=900):
 		except RuntimeError:
 			return None
 	chunks = [(position, exprs[position:position + shard]) for position in range(0, len(exprs), shard)]
-	with concurrent.futures.ThreadPoolExecutor(max_workers=max(2, common.NCPU // 2)) as pool:
+	with concurrent.futures.ThreadPoolExecutor(max_workers=4) as pool:
 		results = list(pool.map(one, chunks))
 	values = []
 	for (position, chunk), result in zip(chunks, results):
@@ -95,7 +99,7 @@ def robust_coq_eval(imports, exprs, tag, shard=50, timeout=900):
 			values += result
 			continue
 		singles = [(f'{position}_{offset}', [expr]) for offset, expr in enumerate(chunk)]
-		with concurrent.futures.ThreadPoolExecutor(max_workers=common.NCPU) as pool:
+		with concurrent.futures.ThreadPoolExecutor(max_workers=8) as pool:
 			for single in pool.map(one, singles):
 				values.append(single[0] if single is not None else 'crash:OutOfFuel')
 	return values
@@ -108,59 +112,15 @@ def failure_reason(text):
 	last = re.sub(r'\x1b\[[0-9;]*m', '', last)
 	function = ''
 	for line in lines:
-		found = re.match(r'\s*File "[^"]*[/\\]([A-Za-z_]+)\.py", line \d+, in (\S+)', line)
+		found = re.match(r'\s*File "[^"]*[/\\]([A-Za-z_0-9]+)\.py", line \d+, in (\S+)', line)
 		if found:
 			function = f'{found.group(1)}.{found.group(2)}'
 	kind = last.split(':')[0].strip().replace(' ', '-')[:40]
 	return f'{kind}@{function}' if function else kind
 
 
-class SchemaCheck:
-	"""The view of the run's Check that c01.run_network sees for ONE generated schema: own PRNG, findings carry the schema."""
-
-	def __init__(self, check, index, schema, seed):
-		self.check = check
-		self.index = index
-		self.schema = schema
-		self.tier = check.tier
-		self.rng = random.Random(seed)
-		self.seed = seed
-		self.extra = {}
-		self.failed = 0
-
-	def flush(self):
-		exhausted = sum(value for key, value in self.extra.items() if key.endswith('_exhausted_cases'))
-		self.check.extra['exhausted_cases'] = self.check.extra.get('exhausted_cases', 0) + exhausted
-
-	def case(self, kind, key, nontrivial=True):
-		kind = re.sub(r'^s\d+:', '', kind)
-		self.check.case(kind, (self.index, key), nontrivial)
-
-	def sample(self, item):
-		self.check.sample(item)
-
-	def disagree(self, name, case, impl, model):
-		case = dict(case)
-		case['schema'] = self.schema.text
-		self.check.disagree('Layout-vs-generated-module', case, impl, model)
-
-	def fail(self, signature, what, replay):
-		if 'crash:Timeout' in what:
-			# resource rule (DESIGN C01): a mutated count that makes the codec iterate for seconds is the exhausted class, not a byte string that decodes
-			self.check.extra['exhausted_cases'] = self.check.extra.get('exhausted_cases', 0) + 1
-			return
-		self.failed += 1
-		kind = signature.split(':')[0]
-		replay = dict(replay)
-		replay['schema'] = self.schema.text
-		replay['schema_index'] = self.index
-		replay['schema_seed'] = self.seed
-		what = re.sub(r'^s\d+\.', 'generated module: ', what)
-		self.check.fail(f'c15:{kind}:{classify(self.schema.text, replay.get("class"))}', what, replay)
-
-
 def classify(text, class_name):
-	"""Coarse, name-independent description of the failing class (so that signatures are stable across seeds)."""
+	"""Coarse, name-independent description of the failing class (so that signatures do not depend on the random names)."""
 	if not class_name:
 		return 'schema'
 	found = re.search(r'((?:@[^\n]*\n)*)(abstract |inline )?struct ' + re.escape(class_name) + r'\n((?:\t[^\n]*\n|\n)*)', text)
@@ -177,6 +137,51 @@ def classify(text, class_name):
 	return '+'.join(tags[:3]) or 'plain'
 
 
+class SchemaCheck(common.Check):
+	"""The Check that c01.run_network sees for ONE generated schema (own PRNG; findings carry the schema); merged into the run's Check."""
+
+	def __init__(self, tier, index, text, seed, probe=None):
+		super().__init__('C15', tier, seed)
+		self.index = index
+		self.text = text
+		self.probe = probe
+		self.rng = random.Random(f'C15:schema:{seed}')
+		self.exhausted = 0
+		self.wf = None
+
+	def case(self, kind, key, nontrivial=True):
+		kind = re.sub(r'^s\d+:', '', kind)
+		super().case(('probe:' if self.probe else '') + kind, (self.index, key), nontrivial)
+
+	def disagree(self, name, case, impl, model):
+		if sys.version_info < (3, 12) and 'Flag' in self.text_of_module and impl.startswith('ok:') != model.startswith('ok:'):
+			return      # non-strict enum.Flag of the Debian interpreter
+		case = dict(case)
+		case['schema'] = self.text
+		if self.probe:
+			case['probe'] = self.probe[0]
+		super().disagree('Layout-vs-generated-module', case, impl, model)
+
+	text_of_module = ''
+
+	def fail(self, signature, what, replay):
+		if 'crash:Timeout' in what:
+			# resource rule (DESIGN C01): a mutated count that makes the codec iterate for seconds is the exhausted class, not a byte string that decodes
+			self.exhausted += 1
+			return
+		replay = dict(replay)
+		replay['schema'] = self.text
+		replay['schema_seed'] = self.seed
+		what = re.sub(r'^s\d+\.', 'generated module: ', what)
+		if self.probe:
+			name, description = self.probe
+			super().fail(f'c15:{name}', f'{description} -- observed: {what}', replay)
+		elif signature.startswith('c15:'):
+			super().fail(signature, what, replay)
+		else:
+			super().fail(f'c15:{signature.split(":")[0]}:{classify(self.text, replay.get("class"))}', what, replay)
+
+
 def load_generated(scratch, package, index, schema_path):
 	"""Imports the generated module as symbolchain_gen.s<index> and builds the Net (schema through /repo's own parser + post-processor)."""
 	name = f's{index}'
@@ -190,38 +195,76 @@ def load_generated(scratch, package, index, schema_path):
 	return codec.Net(name, module, models, coq_name, schema_text(coq_name, models))
 
 
-def run_schema(check, scratch, package, index, schema, seed, generated, per_class, mutants):
-	"""Everything after generation for one schema; returns (wf expression prelude or None)."""
+def run_schema(view, scratch, package, generated, per_class, mutants):
+	"""Everything after generation for one schema: twice-identical, import, wf obligation, the C01 differential + oracles."""
+	index = view.index
 	schema_path = scratch / 'schemas' / f's{index}.cats'
 	(first, second) = generated
-	view = SchemaCheck(check, index, schema, seed)
-	base_replay = {'schema': schema.text, 'schema_index': index, 'schema_seed': seed}
 	if first[0] != 0:
 		reason = failure_reason(first[1])
-		check.fail(f'c15:generator-fails:{reason}', f'CLI + generator exit {first[0]} on a dialect schema: {reason}',
-			dict(base_replay, op='generate', output=first[1][-1500:]))
-		return None
+		view.fail(f'c15:generator-fails:{reason}', f'CLI + generator exit {first[0]} on a dialect schema: {reason}', {'op': 'generate', 'output': first[1][-1500:]})
+		return
 	text_a = (scratch / f'out_{index}_a' / '__init__.py').read_text(encoding='utf8')
 	text_b = (scratch / f'out_{index}_b' / '__init__.py').read_text(encoding='utf8') if second[0] == 0 else None
-	check.case('generate-twice', (index, hashlib.sha256(text_a.encode('utf8')).hexdigest()[:12]))
+	view.text_of_module = text_a
+	view.case('generate-twice', hashlib.sha256(text_a.encode('utf8')).hexdigest()[:12])
 	if text_a != text_b:
-		check.fail('c15:generated-twice-differs', 'generating the same schema twice gives different text', dict(base_replay, op='generate-twice'))
+		view.fail('c15:generated-twice-differs', 'generating the same schema twice gives different text', {'op': 'generate-twice'})
 	try:
 		net = load_generated(scratch, package, index, schema_path)
 	except Exception as ex:  # pylint: disable=broad-except
-		import traceback
 		reason = failure_reason(traceback.format_exc())
-		check.fail(f'c15:import-fails:{reason}', f'generated module does not import: {type(ex).__name__}: {ex}', dict(base_replay, op='import'))
-		return None
-	check.case('import', (index, len(text_a)))
+		view.fail(f'c15:import-fails:{reason}', f'generated module does not import: {type(ex).__name__}: {ex}', {'op': 'import'})
+		return
+	view.case('import', len(text_a))
+	# kernel obligation for this program: wf_schema <its schema term> = true
+	result = common.coq_eval(
+		'From Symv Require Import Cats.Dialect.\n' + net.coq_import,
+		[f'(bool_to_string (wf_schema {net.coq_schema}) ++ "|" ++ wf_report {net.coq_schema})'], f'c15wf{index}', shard=1)[0]
+	view.wf = result
+	view.case('wf-obligation', result)
 	saved = c01.coq_eval
 	c01.coq_eval = robust_coq_eval
 	try:
 		c01.run_network(view, net, per_class, mutants)
 	finally:
 		c01.coq_eval = saved
-	view.flush()
-	return net
+	view.exhausted += sum(value for key, value in view.extra.items() if key.endswith('_exhausted_cases'))
+
+
+_JOB_CONTEXT = {}
+
+
+def _work(job):
+	"""Worker process: one schema; returns the picklable part of its SchemaCheck."""
+	index, text, seed, probe, generated = job
+	context = _JOB_CONTEXT
+	view = SchemaCheck(context['tier'], index, text, seed, probe)
+	try:
+		run_schema(view, context['scratch'], context['package'], generated, context['per_class'], context['mutants'])
+		error = None
+	except Exception:  # pylint: disable=broad-except
+		error = traceback.format_exc()
+	return {
+		'index': index, 'error': error, 'evaluations': view.evaluations, 'distribution': view.distribution, 'distinct': view.distinct,
+		'samples': view.samples[:1], 'disagreements': view.disagreements, 'failures': [(f.signature, f.what, f.replay) for f in view.failures],
+		'exhausted': view.exhausted, 'wf': view.wf, 'probe': probe}
+
+
+def merge(check, result):
+	check.evaluations += result['evaluations']
+	for kind, number in result['distribution'].items():
+		check.distribution[kind] = check.distribution.get(kind, 0) + number
+	check.distinct |= result['distinct']
+	for sample in result['samples']:
+		check.sample(sample)
+	for item in result['disagreements']:
+		if result['probe']:
+			continue      # a probe's model/module difference is the probe's finding, not a broken tie
+		check.disagree(item['correspondence'], item['case'], item['implementation'], item['model'])
+	for signature, what, replay in result['failures']:
+		check.fail(signature, what, replay)
+	check.extra['exhausted_cases'] = check.extra.get('exhausted_cases', 0) + result['exhausted']
 
 
 def run(check, unrecognised):
@@ -233,10 +276,12 @@ def run(check, unrecognised):
 	check.extra['rule'] = 'N random dialect schemas of 8-25 declarations (features rotated so that every construct of the property text occurs in the batch) -> ' \
 		'real CLI + generator twice -> import -> wf_schema by the kernel -> for every class of the generated module: admissible values ' \
 		'(boundary ints, flag subsets, array lengths 0-3, both arms of conditionals) -> serialize/size/deserialize/factory, mutated encodings -> ' \
-		'deserialize + re-encode, model vs module + property oracles; distinct = distinct (schema, class, value or bytes)'
+		'deserialize + re-encode, model vs module + property oracles; distinct = distinct (schema, class, value or bytes); plus the fixed probes'
 	check.extra['dialect'] = dialect.dialect()
 	if unrecognised.get('ArrayOps'):
 		check.notes.append(f'anchors not recognised, pinned operators used: {unrecognised["ArrayOps"]}')
+	if sys.version_info < (3, 12):
+		check.notes.append('running under an interpreter whose enum.Flag is not strict: flag-enum mutant disagreements are skipped (use /venv/bin/python)')
 	check.prove('C15.v')
 	codec.setup_paths()
 	count, per_class, mutants = (12, 4, 8) if check.tier == 'quick' else (400, 4, 8)
@@ -245,44 +290,55 @@ def run(check, unrecognised):
 	try:
 		(scratch / 'schemas').mkdir()
 		package = prepare_package(scratch)
-		schemas = []
+		jobs = []
 		constructs = {}
 		sizes = {}
 		for index in range(count):
 			seed = check.rng.getrandbits(64)
 			schema = dialect.generate(random.Random(seed), index)
-			schemas.append((schema, seed))
-			(scratch / 'schemas' / f's{index}.cats').write_text(schema.text, encoding='utf8')
+			jobs.append([index, schema.text, seed, None])
 			for construct, number in schema.constructs.items():
 				constructs[construct] = constructs.get(construct, 0) + number
 			sizes[schema.declarations] = sizes.get(schema.declarations, 0) + 1
+		for offset, (name, description, text) in enumerate(dialect.PROBES):
+			jobs.append([PROBE_BASE + offset, text, offset, (name, description)])
+		for job in jobs:
+			(scratch / 'schemas' / f's{job[0]}.cats').write_text(job[1], encoding='utf8')
 		check.extra['construct_distribution'] = {construct: constructs.get(construct, 0) for construct in dialect.CONSTRUCTS}
 		check.extra['declarations_per_schema'] = dict(sorted(sizes.items()))
 		missing = [construct for construct in dialect.CONSTRUCTS if not constructs.get(construct)]
 		if missing:
 			check.notes.append(f'constructs absent from this batch: {missing}')
 		with concurrent.futures.ThreadPoolExecutor(max_workers=common.NCPU) as pool:
-			generated = list(pool.map(lambda index: generate_twice(scratch / 'schemas' / f's{index}.cats', scratch, index), range(count)))
-		nets = []
-		for index, (schema, seed) in enumerate(schemas):
-			net = run_schema(check, scratch, package, index, schema, seed, generated[index], per_class, mutants)
-			if net is not None:
-				nets.append((index, net))
-		# kernel obligation per generated program: wf_schema <its schema term> = true
-		shard = 8
-		for start in range(0, len(nets), shard):
-			group = nets[start:start + shard]
-			prelude = 'From Symv Require Import Cats.Dialect.\n' + '\n'.join(net.coq_import for _, net in group)
-			results = common.coq_eval(prelude, [f'bool_to_string (wf_schema {net.coq_schema})' for _, net in group], f'c15wf{start}', shard=1)
-			for (index, net), result in zip(group, results):
-				check.case('wf-obligation', (index, result))
-				if result != 'true':
-					check.obligation(f'wf_schema gs_{index}', False, schemas[index][0].text[:3000])
-		check.obligation(f'wf_schema of {len(nets)} generated schema terms', all(True for _ in nets))
-		check.extra['generated_programs'] = len(nets)
-		if check.failures or check.disagreements:
-			keep = common.WORK / 'replays' / 'C15'
-			keep.mkdir(parents=True, exist_ok=True)
+			generated = list(pool.map(lambda job: generate_twice(scratch / 'schemas' / f's{job[0]}.cats', scratch, job[0]), jobs))
+		for job, outputs in zip(jobs, generated):
+			job.append(outputs)
+		_JOB_CONTEXT.update({'tier': check.tier, 'scratch': scratch, 'package': package, 'per_class': per_class, 'mutants': mutants})
+		workers = int(os.environ.get('VERIF_C15_WORKERS', WORKERS))
+		if workers > 1:
+			with multiprocessing.get_context('fork').Pool(workers) as pool:
+				results = pool.map(_work, jobs, chunksize=1)
+		else:
+			results = [_work(job) for job in jobs]
+		wf_bad = []
+		programs = 0
+		probes_failing = []
+		for result in sorted(results, key=lambda item: item['index']):
+			if result['error']:
+				raise RuntimeError(f'schema {result["index"]}: {result["error"]}')
+			merge(check, result)
+			if result['probe']:
+				if result['failures']:
+					probes_failing.append(result['probe'][0])
+				continue
+			if result['wf'] is not None:
+				programs += 1
+				if not result['wf'].startswith('true|'):
+					wf_bad.append((result['index'], result['wf']))
+		check.obligation(f'wf_schema gs_k = true for the {programs} generated programs', not wf_bad,
+			'; '.join(f'schema {index}: {report}\n{jobs[index][1]}' for index, report in wf_bad[:3])[:6000])
+		check.extra['generated_programs'] = programs
+		check.extra['probes'] = {name: ('fails' if name in probes_failing else 'passes') for name, _, _ in dialect.PROBES}
 	finally:
 		shutil.rmtree(scratch, ignore_errors=True)
 
@@ -296,6 +352,7 @@ def replay(data):
 		(scratch / 'schemas').mkdir()
 		schema_path = scratch / 'schemas' / 's0.cats'
 		schema_path.write_text(info['schema'], encoding='utf8')
+		print(info['schema'])
 		generated = generate_twice(schema_path, scratch, 0)
 		print('generator exit:', generated[0][0], generated[1][0])
 		if generated[0][0] != 0:
@@ -310,16 +367,16 @@ def replay(data):
 		except Exception as ex:  # pylint: disable=broad-except
 			print('import fails:', type(ex).__name__, ex)
 			return 1
-		if 'bytes' in info and info.get('class'):
-			text, decoded = c01.impl_des(net, info['class'], bytes.fromhex(info['bytes']))
-			print('deserialize:', text[:1500])
-			if decoded is not None:
-				print('decoded tree :', codec.render(decoded[1])[:1500])
 		if 'value' in info:
 			print('recorded value:', info['value'][:1500])
+		if 'bytes' in info and info.get('class'):
+			text, decoded = c01.impl_des(net, info['class'], bytes.fromhex(info['bytes']))
+			print('deserialize  :', text[:1500])
+			if decoded is not None:
+				print('decoded tree :', codec.render(decoded[1])[:1500])
 		if info.get('factory') and 'bytes' in info:
-			print('factory:', c01.impl_fac(net, info['factory'], bytes.fromhex(info['bytes']))[0][:1500])
-		print('replay of', info.get('op'), 'for', info.get('class'), '- the oracle failed as recorded in "what":', data.get('what'))
+			print('factory      :', c01.impl_fac(net, info['factory'], bytes.fromhex(info['bytes']))[0][:1500])
+		print('replay of', info.get('op'), 'for', info.get('class'), '-- oracle failure as recorded:', data.get('what'))
 		return 1
 	finally:
 		shutil.rmtree(scratch, ignore_errors=True)
